@@ -140,11 +140,46 @@ def gen_config(rnd, style='normal'):
     return cfg
 
 
+# accepted values at and next to the ends of every declared range (and of the 0..1 % porosity region)
+BOUNDARY = {'Reservoir Porosity': ['0', '0.01', '0.5', '0.99', '1', '99', '99.99', '100'],
+            'Reservoir Area': ['0', '0.001', '0.5', '1', '9999.99', '10000'],
+            'Reservoir Thickness': ['0', '0.001', '0.01', '1', '9999', '10000'],
+            'Reservoir Temperature': ['50', '50.01', '599.99', '600', '999.9', '1000'],
+            'Rejection Temperature': ['0.1', '0.11', '199.99', '200'],
+            'Reservoir Life Cycle': ['1', '2', '99', '100'],
+            'Rock Heat Capacity': ['0', '1', '1e3', '9.99e13', '1e14'],
+            'Fluid Specific Heat Capacity': ['3', '3.01', '9.99', '10'],
+            'Density Of Reservoir Fluid': ['1e11', '1.001e11', '9.99e12', '1e13'],
+            'Density Of Reservoir Rock': ['1e11', '1.001e11', '9.99e12', '1e13'],
+            'Recoverable Fluid Factor': ['0', '0.001', '0.01', '0.999', '1'],
+            'Recoverable Heat from Rock': ['0', '0.001', '0.01', '0.999', '1'],
+            'Reservoir Depth': ['0.001', '0.002', '14.99', '15'],
+            'Reservoir Pressure': ['0.001', '0.5', '900', '10000']}
+
+
 def configs(ctx, n):
     rnd, out = ctx.rng, []
     for k in range(n):
-        style = 'inverted' if k % 12 == 5 else 'edge' if k % 12 in (7, 11) else 'normal'
-        out.append((style, gen_config(rnd, style)))
+        style = 'inverted' if k % 12 == 5 else 'edge' if k % 12 in (7, 11) else 'boundary' if k % 12 in (3, 9) else 'normal'
+        cfg = gen_config(rnd, 'normal' if style == 'boundary' else style)
+        if style == 'boundary':       # one to three inputs at / next to an end of their accepted range; porosity every other time
+            names = rnd.sample(sorted(BOUNDARY), rnd.randint(1, 3)) + (['Reservoir Porosity'] if (k // 12) % 2 == 0 else [])
+            for name in names:
+                cfg[name] = rnd.choice(BOUNDARY[name])
+        out.append((style, cfg))
+    return out
+
+
+def stated(text):
+    """the numbers the input file states (plain 'name, value' lines without a unit) as exact rationals"""
+    out = {}
+    for line in text.splitlines():
+        parts = [x.strip() for x in line.split(',')]
+        if len(parts) >= 2 and parts[0] in _IN_NAMES and ' ' not in parts[1]:
+            try:
+                out[parts[0]] = F(parts[1])
+            except ValueError:
+                pass
     return out
 
 
@@ -213,9 +248,10 @@ def analyse(r):
 
 def clause_terms(a, tol=TOL, all_in_one=False):
     """Coq boolean terms: the clauses of the property on one implementation run."""
-    p, o, t = a['pre'], qconv.qlist(a['outs']), qconv.q(tol)
-    por, area, thick, rff = (qconv.q(p[N[k]]) for k in ('reservoir_porosity', 'reservoir_area', 'reservoir_thickness',
-                                                        'recoverable_fluid_factor'))
+    p, o, t, st = a['pre'], qconv.qlist(a['outs']), qconv.q(tol), stated(a.get('text', ''))
+    # the inputs as STATED in the file (the value held after read_parameters only for inputs the file does not give)
+    por, area, thick, rff = (qconv.q(st.get(_IN_NAMES[N[k]], p[N[k]])) for k in
+                             ('reservoir_porosity', 'reservoir_area', 'reservoir_thickness', 'recoverable_fluid_factor'))
     if all_in_one:
         return [f'chk_run {t} {por} {area} {thick} {rff} {o}']
     return [f'chk_volume {t} {area} {thick} {o}', f'chk_vol_rock {t} {por} {o}', f'chk_vol_fluid {t} {por} {rff} {o}',
@@ -253,6 +289,14 @@ def part_model(ctx, labelled, results):
     flatcorr.run(ctx, 'partial-report-vs-model', RREQ, 'run_published', TOL, partial, kind='corr',
                  key_of=lambda c: 'partial-report:model-differs:' + c['desc']['error'],
                  what='after an exception in Calculate, the outputs main() goes on to print differ from the Coq model [published]')
+    for a in ok_runs:
+        for name, q in stated(a['text']).items():
+            held = a['pre'][_attr_index(name)]
+            want = F(int(q)) if name == 'Reservoir Life Cycle' else q
+            if abs(held - want) > abs(want) * F(1, 10 ** 12):
+                ctx.violate('corr', f'read:stated-value-altered:{name}',
+                            f'the input file states {name} = {q} (no unit) but Calculate starts from {float(held)!r}',
+                            inp={'kind': 'clause', 'clause': 'read', 'text': a['text']}, expected=str(q), observed=float(held))
     # the property itself, on what the implementation produced
     failing_runs = [ok_runs[b] for b in fw.kernel_bools(ctx, 'clauses', REQ, [clause_terms(a, all_in_one=True)[0] for a in ok_runs],
                                                         shard=max(20, len(ok_runs) // 32 + 1))]
@@ -826,6 +870,7 @@ def replay(ctx, data):
     if a['skip']:
         print('run not comparable:', a['skip'])
         return 1
+    a['text'] = text
     failing = fw.kernel_cases(ctx, 'replay', REQ, 'run_hip', TOL, [(a['flat'], a['impl'])])
     if a['error']:
         failing += fw.kernel_cases(ctx, 'replay_partial', RREQ, 'run_published', TOL, [(a['flat'], ('V', a['outs']))])
